@@ -1,8 +1,7 @@
 CONSTANTS
-  MaxOps = 5
-  Closed = FALSE
-  MaxSyms = 3
+  MaxOps = 0
+  Closed = TRUE
+  MaxSyms = 2
 SPECIFICATION Spec
 INVARIANTS LatestWins Innermost
-PROPERTIES RemoveExact
 CHECK_DEADLOCK FALSE
